@@ -4,16 +4,17 @@ tools; VERIF_REPO / VERIF_BUILD / VERIF_OUT overrides of tools/lib.py).  Used wh
 run is using it); the recorded procedure remains tools/run_mutants.py on /repo.
 usage: wt_mutants.py ID [ID ...] [--props=C01,C02]"""
 import json, os, subprocess, sys, time
-ROOT = '/verif'; WT = '/tmp/wtm/repo'; BUILD = '/tmp/wtm/build'; OUT = '/tmp/wtm/out'
+ROOT = '/verif'; BASE = os.environ.get('WTM_DIR', '/tmp/wtm'); WT = BASE + '/repo'; BUILD = BASE + '/build'; OUT = BASE + '/out'
+RESF = os.environ.get('WTM_RESULTS', f'{ROOT}/seeded/RESULTS.json')
 def sh(cmd, **kw): return subprocess.run(cmd, shell=True, stdout=subprocess.PIPE, stderr=subprocess.STDOUT, text=True, **kw)
 def main():
     args = [a for a in sys.argv[1:] if not a.startswith('--')]
     extra = [a.split('=', 1)[1].split(',') for a in sys.argv[1:] if a.startswith('--props=')]
-    os.makedirs('/tmp/wtm', exist_ok=True)
+    os.makedirs(BASE, exist_ok=True)
     if not os.path.exists(WT):
         r = sh(f'git -C /repo worktree add -q --detach {WT} HEAD'); assert r.returncode == 0, r.stdout
     env = dict(os.environ, VERIF_REPO=WT, VERIF_BUILD=BUILD, VERIF_OUT=OUT)
-    resf = f'{ROOT}/seeded/RESULTS.json'
+    resf = RESF
     results = json.load(open(resf)) if os.path.exists(resf) else {}
     for i in args:
         d = f'{ROOT}/seeded/{i}'
